@@ -8,6 +8,7 @@ KAll == {"pub1", "pub2", "pubrel", "sub", "unsub", "ping"}
 KCtl == {"pub1", "sub", "unsub", "ping"}
 KPub01 == {"pub0", "pub1"}
 KPub1 == {"pub1"}
+KPub2 == {"pub2"}
 KIds == {"pub1", "pub2", "pubrel", "sub"}
 OOk == {"ok"}
 OAll == {"ok", "err", "nack"}
